@@ -22,6 +22,10 @@ ENCODED = [
     "tdgl.solver.solver:validate_terminal_currents",
     "tdgl.solver.solver:TDGLSolver.__init__",
     "tdgl.solver.solver:TDGLSolver.solve",
+    "tdgl.device.polygon:Polygon.points (setter)",
+    "tdgl.device.polygon:Polygon.is_valid",
+    "tdgl.device.polygon:Polygon._join_via",
+    "tdgl.device.device:Device.__init__",
 ]
 BOUNDS = {
     "quick": dict(terminals=[2, 3], breakpoints=1, defect="relative imbalance >= 1e-6"),
@@ -33,11 +37,20 @@ ASSUMPTIONS = [
     "unbalanced = |sum I| >= 1e-6 * sum |I| and sum |I| > 0",
     "floating-point acceptance/rejection of constant currents under the standard rounding-error model (relative error 2^-53 per operation)",
 ]
-OUTSIDE = ["invalid polygons / device definitions (shapely validity: compiled GEOS)", "wrong-shape potentials beyond a shape flag", "gpu / umfpack / pardiso option branches (imports)"]
+OUTSIDE = ["GEOS' own validity / emptiness / disjointness verdicts (the harness declares them to the vertex-level model; every concrete replay asks the real library); devices whose defect only shows at meshing time (holes outside the film, overlapping holes)", "wrong-shape potentials beyond a shape flag", "gpu / umfpack / pardiso option branches (imports)"]
 TV_SAMPLES = {"quick": 2, "thorough": 2}
 
 
+DEFECTS = ["well-formed", "bowtie-polygon", "unnamed-film", "unnamed-hole", "unnamed-terminal", "duplicate-terminal-names", "duplicate-hole-names",
+           "probe-outside-film", "probe-in-hole", "probe-shape", "union-of-disjoint", "intersection-of-disjoint", "open-ring-of-two-points"]
+
+
 def patch_spec(case):
+    if case.kind == "devdef":
+        from . import C18
+
+        case.params["_fs"] = None
+        return C18.patch_spec(case)
     fs = fakeh5.FakeFS()
     fs.dirs.add("/work")
     case.params["_fs"] = fs
@@ -64,6 +77,8 @@ def cases(tier, seed):
     out.append(Case("seed-from-other-device:bar0", kind="seed", seed=seed))
     out.append(Case("terminal-touches-no-boundary", kind="terminal", seed=seed))
     out.append(Case("unbalanced-time-dependent:bar2", kind="timedep", dev="bar2", seed=seed))
+    for d in DEFECTS:
+        out.append(Case(f"device-definition:{d}", kind="devdef", defect=d, seed=seed))
     return out
 
 
@@ -74,6 +89,8 @@ def no_output(H, fs, tag):
 
 def body(H, case):
     fs = case.params.get("_fs")
+    if case.kind == "devdef":
+        return body_devdef(H, case)
     if H.mode == "sym":
         fs.files.clear(); fs.dirs.clear(); fs.dirs.add("/work"); fs.open_handles.clear(); fs.log.clear()
     return globals()["body_" + case.kind](H, case, fs)
@@ -262,6 +279,102 @@ def body_terminal(H, case, fs):
         rejected = "does not contain any points" in str(e)
     H.prove("a terminal that touches no boundary is rejected", rejected)
     no_output(H, fs, "empty terminal")
+
+
+def body_devdef(H, case):
+    """Invalid polygons and device definitions: the Python around shapely (vertex setter, set operations,
+    `Device.__init__`) must refuse every member of the enumerated classes with a ValueError and accept
+    the well-formed device; vertices and probe positions are symbolic, GEOS' verdicts are declared."""
+    import tdgl
+    from symx import fakegeo
+
+    from .C18 import _box, cell_facts
+
+    sym = H.mode == "sym"
+    if sym:
+        fakegeo.reset()
+    defect = case.defect
+
+    def refused(f):
+        try:
+            f()
+            return False
+        except ValueError:
+            return True
+
+    layer = tdgl.Layer(coherence_length=1.0, london_lambda=2.0, thickness=0.1)
+    if defect == "bowtie-polygon":
+        j = lambda nm, v: H.real(f"bt_{nm}", lo=v - 0.1, hi=v + 0.1)
+        pts = H.array2([[j("x0", 0.0), j("y0", 0.0)], [j("x1", 2.0), j("y1", 1.0)], [j("x2", 2.0), j("y2", 0.0)], [j("x3", 0.0), j("y3", 1.0)]])
+        if sym:
+            fakegeo.mark_invalid(pts)
+        H.prove("a self-intersecting vertex list is refused by Polygon", refused(lambda: tdgl.Polygon("film", points=pts)))
+        good = _box(H, "good", 0.0, 0.0, 4.0, 4.0)
+
+        def assign():
+            good.points = pts
+
+        snap = [(K.at(good.points, i, 0), K.at(good.points, i, 1)) for i in range(5)]
+        H.prove("assigning a self-intersecting vertex list to an existing polygon is refused", refused(assign))
+        now = [(K.at(good.points, i, 0), K.at(good.points, i, 1)) for i in range(np.shape(good.points.data if hasattr(good.points, "data") and not isinstance(good.points, np.ndarray) else good.points)[0])]
+        same = len(now) == len(snap) and all((str(a[0]) == str(b[0]) and str(a[1]) == str(b[1])) if sym else (a == b) for a, b in zip(now, snap))
+        H.prove("a refused assignment leaves the stored vertices unchanged", same)
+        return
+    if defect == "open-ring-of-two-points":
+        pts = H.array2([[H.real("p0x", lo=-0.1, hi=0.1), H.real("p0y", lo=-0.1, hi=0.1)], [H.real("p1x", lo=0.9, hi=1.1), H.real("p1y", lo=-0.1, hi=0.1)]])
+        H.prove("a vertex list with fewer than three points is refused by Polygon", refused(lambda: tdgl.Polygon("film", points=pts)))
+        return
+    if defect in ("union-of-disjoint", "intersection-of-disjoint"):
+        A = _box(H, "A", 0.0, 0.0, 1.0, 1.0)
+        B = _box(H, "B", 3.0, 3.0, 4.0, 4.0)
+        if sym:
+            fakegeo.mark_disjoint(A.points, B.points)
+        if defect == "union-of-disjoint":
+            H.prove("the union of two disjoint polygons (not a single polygon) is refused", refused(lambda: A.union(B)))
+            H.prove("... also through the operator +", refused(lambda: A + B))
+        else:
+            H.prove("the intersection of two disjoint polygons (empty) is refused", refused(lambda: A.intersection(B)))
+            H.prove("... also through the operator *", refused(lambda: A * B))
+        return
+    film = _box(H, "film", 0.0, 0.0, 10.0, 6.0)
+    holes = [_box(H, "hole0", 1.0, 1.0, 3.0, 3.0), _box(H, "hole1", 5.0, 1.0, 7.0, 3.0)]
+    terms = [_box(H, "source", -0.5, 1.0, 0.5, 5.0), _box(H, "drain", 9.5, 1.0, 10.5, 5.0)]
+    cells = {"outside": ((-0.9, -0.6), (5.2, 5.8)), "film": ((8.2, 8.8), (0.3, 0.7)), "hole0": ((1.3, 2.7), (1.3, 2.7)), "hole1": ((5.3, 6.7), (1.3, 2.7))}
+    second = {"probe-outside-film": "outside", "probe-in-hole": "hole1"}.get(defect, "film")
+    chosen = ["film", second]
+    if defect == "probe-shape":
+        Q = np.array([[8.5, 0.5, 0.0], [8.6, 0.6, 0.0]])
+    else:
+        Q = H.array2([[H.real(f"q{j}x_{c}", lo=cells[c][0][0] + 0.01 * j, hi=cells[c][0][1]), H.real(f"q{j}y_{c}", lo=cells[c][1][0], hi=cells[c][1][1])] for j, c in enumerate(chosen)])
+        inF = film.contains_points(Q)
+        inH = [h.contains_points(Q) for h in holes]
+        for j, c in enumerate(chosen):
+            cell_facts(H, "film", K.at(inF, j), j, c != "outside")
+            for k, hk in enumerate(inH):
+                cell_facts(H, f"hole{k}", K.at(hk, j), j, c == f"hole{k}")
+    if defect == "unnamed-film":
+        film.name = None
+    elif defect == "unnamed-hole":
+        holes[1].name = None
+    elif defect == "unnamed-terminal":
+        terms[1].name = None
+    elif defect == "duplicate-terminal-names":
+        terms[1].name = terms[0].name
+    elif defect == "duplicate-hole-names":
+        holes[1].name = holes[0].name
+    out = {}
+
+    def build():
+        out["dev"] = tdgl.Device("dev", layer=layer, film=film, holes=holes, terminals=terms, probe_points=Q, length_units="um")
+
+    r = refused(build)
+    if defect == "well-formed":
+        H.prove("a well-formed device definition (named valid polygons, distinct names, probes inside the film and outside the holes) is accepted", not r)
+        if not r:
+            dev = out["dev"]
+            H.prove("the accepted device holds the given film, holes, terminals and probe points", dev.film is film and list(dev.holes) == holes and list(dev.terminals) == terms and np.shape(dev.probe_points.data if hasattr(dev.probe_points, "data") and not isinstance(dev.probe_points, np.ndarray) else dev.probe_points) == (2, 2))
+    else:
+        H.prove(f"a device definition with the defect '{defect}' is refused with a ValueError", r)
 
 
 def body_timedep(H, case, fs):
